@@ -1,16 +1,56 @@
 import RModel.Base.Lit
 import RModel.Model.CaseModel
+import RModel.Model.VariantMap
 import RModel.Gen.Acronyms
 import RModel.Gen.Styles
+import RModel.Lemmas.CaseModel
+import RModel.Lemmas.CaseModelWords
+import RModel.Lemmas.CaseModelAcr
+import RModel.Lemmas.CaseModelDetect
+import RModel.Lemmas.CaseModelStyles
+import RModel.Lemmas.CaseModelVariant
 /-
   C18 — Case conversion is a consistent algebra.   (property theorems only; lemmas in Lemmas/CaseModel*.lean)
+
+  Vocabulary of the statements (definitions in `Lemmas/CaseModel*.lean`, namespace `CaseModel`):
+  * `LowerWord w`  : `w ≠ [] ∧ ∀ c ∈ w, isLower c`;   `Word w` : `2 ≤ |w| ∧ ∀ c ∈ w, isLower c`;
+    `LowerWords ws` / `Words ws` : every word of the list.
+  * `AcrOk A`      : `A.flm rest = some n → 1 ≤ n ∧ n ≤ |rest| ∧ ∀ c ∈ rest.take n, isAlnum c`.
+  * `AcrStable A`  : `A.flm (x ++ t) = some n → n ≤ |x| → A.flm x = some n` (the longest trie match does not depend
+    on the bytes after it).  Both contracts are proved for every `acrOf acrs` with alphanumeric entries.
+  * `Neutral A ws` : every word satisfies
+      N1 `NeutralUpper A w` : if the trie matches a prefix of length `n` of `upper w` then `n = |w|` or the trie does
+                              not match at `(upper w).drop n` (no "acronym directly followed by an acronym"), and
+      N2 `NeutralCap A w`   : the trie does not match exactly one letter at `capitalizeFirst w`.
+    N1 is what the upper-case styles need, N2 what the capitalised styles need; the lower-case styles need nothing.
+  * `V12`          : all styles but `lowerFlat`, `upperFlat`.
+  * `rendWords ws st` : the exact token list of `toStyle A ws st` (the words, upper-cased, or capitalised).
 -/
 namespace C18
 open B CaseModel
 
 def A : Acr := acrOf Gen.defaultAcronyms
 
-/-- kernel-evaluated boundary facts that fix the guard from outside -/
+/-- the intended vocabulary of the generators -/
+def vocab : List Bytes :=
+  [b!"foo", b!"bar", b!"baz", b!"qux", b!"alpha", b!"gamma", b!"delta", b!"widget", b!"gadget", b!"tiger",
+   b!"lemon", b!"nova"]
+
+-- the contract of the trie, for the generated acronym list (re-checked by evaluation whenever the list changes) --------
+
+theorem acrOk_default : AcrOk A := acrOk_of_acrsAlnum (by decide +kernel)
+theorem acrStable_default : AcrStable A := acrStable_acrOf _
+
+/-- the contract holds for every acronym list with alphanumeric entries -/
+theorem acrOk_general {acrs : List Bytes} (h : ∀ a ∈ acrs, ∀ c ∈ a, isAlnum c = true) :
+    AcrOk (acrOf acrs) ∧ AcrStable (acrOf acrs) := ⟨acrOk_acrOf h, acrStable_acrOf acrs⟩
+
+example : Words vocab := by decide
+example : Neutral A vocab := by decide +kernel
+example : UpperSafe A vocab := by decide +kernel
+
+-- kernel-evaluated boundary facts that fix the guard from outside ---------------------------------------------------
+
 theorem one_letter_word_breaks_camel :
     parse A (toStyle A [b!"foo", b!"a", b!"bar"] .camel) = [b!"foo", b!"ABar"] := by decide +kernel
 
@@ -20,5 +60,254 @@ theorem acronym_word_changes_tokens :
 
 theorem digits_glue_to_previous_word :
     parse A b!"foo2bar" = [b!"foo2bar"] ∧ parse A b!"foo_2_bar" = [b!"foo", b!"2", b!"bar"] := by decide +kernel
+
+/-- N1 is needed: `uiux` upper-cased is `UI` directly followed by `UX` -/
+theorem neutral_upper_needed :
+    ¬ NeutralUpper A b!"uiux" ∧ NeutralCap A b!"uiux" ∧
+    parse A (toStyle A [b!"uiux", b!"foo"] .screamingSnake) = [b!"UI", b!"UX", b!"FOO"] := by decide +kernel
+
+/-- N2 is needed (only for acronym sets with one-letter entries; the default set has none): with the set `{F}` -/
+theorem neutral_cap_needed :
+    ¬ NeutralCap (acrOf [b!"F"]) b!"foo" ∧ NeutralUpper (acrOf [b!"F"]) b!"foo" ∧
+    parse (acrOf [b!"F"]) (toStyle (acrOf [b!"F"]) [b!"foo", b!"bar"] .pascal) = [b!"F", b!"oo", b!"Bar"] := by
+  decide +kernel
+
+/-- N2 is vacuous for the default set: it has no one-letter acronym -/
+theorem neutral_cap_default_of_no_unit : (Gen.defaultAcronyms.all (fun a => a.length != 1)) = true := by
+  decide +kernel
+
+-- 1. lower-case separator styles: no neutrality needed, one-letter words allowed --------------------------------------
+
+theorem parse_render_lower {A : Acr} {ws : List Bytes} {st : Style} (hA : AcrOk A) (hw : LowerWords ws)
+    (hst : st ∈ [Style.snake, .kebab, .dot, .lowerSentence]) : parse A (toStyle A ws st) = ws := by
+  rw [toStyle_words A hw]
+  cases st <;> first
+    | exact absurd hst (by decide)
+    | exact parse_lower_sep hA (by decide) hw
+
+example : parse A (toStyle A [b!"foo", b!"x", b!"api"] .kebab) = [b!"foo", b!"x", b!"api"] :=
+  parse_render_lower acrOk_default (by decide) (by decide)
+
+-- 2. upper-case separator styles -----------------------------------------------------------------------------------------------
+
+theorem parse_render_upper {A : Acr} {ws : List Bytes} {st : Style} (hA : AcrOk A) (hS : AcrStable A)
+    (hw : LowerWords ws) (hN : ∀ w ∈ ws, NeutralUpper A w)
+    (hst : st ∈ [Style.screamingSnake, .screamingTrain, .upperSentence]) :
+    (parse A (toStyle A ws st)).map lower = ws := by
+  rw [toStyle_words A hw]
+  cases st <;> first
+    | exact absurd hst (by decide)
+    | (simp only []; rw [parse_upper_sep hA hS (by decide) hw hN]; exact map_lower_upper_words hw)
+
+example : (parse A (toStyle A [b!"foo", b!"bar"] .screamingSnake)).map lower = [b!"foo", b!"bar"] :=
+  parse_render_upper acrOk_default acrStable_default (by decide) (by decide +kernel) (by decide)
+
+-- 3. capitalised words with separators --------------------------------------------------------------------------------------
+
+theorem parse_render_hump_sep {A : Acr} {ws : List Bytes} {st : Style} (hA : AcrOk A) (hS : AcrStable A)
+    (hw : Words ws) (hN : ∀ w ∈ ws, NeutralCap A w) (hst : st ∈ [Style.title, .train, .sentence]) :
+    (parse A (toStyle A ws st)).map lower = ws := by
+  have hl := hw.lowerWords
+  rw [toStyle_words A hl]
+  cases st <;> first
+    | exact absurd hst (by decide)
+    | (simp only []; rw [parse_cap_sep hA hS (by decide) hw hN]; exact map_lower_cap_words hl)
+    | (cases ws with
+       | nil => rfl
+       | cons w r =>
+         simp only []
+         rw [parse_sentence_words hA hS (hw w (List.mem_cons_self ..)) (hN w (List.mem_cons_self ..)) hl.tail]
+         simp only [List.map_cons, lower_capitalizeFirst (hl w (List.mem_cons_self ..)).2,
+           map_lower_lowerWords hl.tail])
+
+example : (parse A (toStyle A [b!"foo", b!"bar", b!"baz"] .sentence)).map lower = [b!"foo", b!"bar", b!"baz"] :=
+  parse_render_hump_sep acrOk_default acrStable_default (by decide) (by decide +kernel) (by decide)
+
+-- 4. camel / pascal: boundaries only from lower → upper transitions --------------------------------------------
+
+theorem parse_render_hump {A : Acr} {ws : List Bytes} {st : Style} (hA : AcrOk A) (hS : AcrStable A)
+    (hw : Words ws) (hN : ∀ w ∈ ws, NeutralCap A w) (hst : st ∈ [Style.camel, .pascal]) :
+    (parse A (toStyle A ws st)).map lower = ws := by
+  have hl := hw.lowerWords
+  rw [toStyle_words A hl]
+  cases st <;> first
+    | exact absurd hst (by decide)
+    | (cases ws with
+       | nil => rfl
+       | cons w r =>
+         simp only []
+         rw [parse_camel hA hS (hl w (List.mem_cons_self ..)) (caps_of_words hw.tail)
+           (caps_neutral (fun x hx => hN x (List.mem_cons_of_mem _ hx)))]
+         simp only [List.map_cons, lower_of_lower (hl w (List.mem_cons_self ..)).2, map_lower_cap_words hl.tail])
+    | (cases ws with
+       | nil => rfl
+       | cons w r =>
+         simp only [List.map_cons]
+         rw [parse_pascal hA hS (isCap_capitalizeFirst (hw w (List.mem_cons_self ..)))
+           (hN w (List.mem_cons_self ..)) (caps_of_words hw.tail)]
+         exact map_lower_cap_words hl)
+
+example : (parse A (toStyle A [b!"foo", b!"bar", b!"baz"] .camel)).map lower = [b!"foo", b!"bar", b!"baz"] :=
+  parse_render_hump acrOk_default acrStable_default (by decide) (by decide +kernel) (by decide)
+
+-- 5. all twelve boundary-visible styles --------------------------------------------------------------------------------------
+
+/-- the exact tokens -/
+theorem parse_render_exact {A : Acr} {ws : List Bytes} {st : Style} (hA : AcrOk A) (hS : AcrStable A)
+    (hw : Words ws) (hN : Neutral A ws) (hst : st ∈ V12) : parse A (toStyle A ws st) = rendWords ws st :=
+  parse_rendWords hA hS hw hN hst
+
+theorem parse_render {A : Acr} {ws : List Bytes} {st : Style} (hA : AcrOk A) (hS : AcrStable A)
+    (hw : Words ws) (hN : Neutral A ws) (hst : st ∈ V12) : (parse A (toStyle A ws st)).map lower = ws := by
+  rw [parse_rendWords hA hS hw hN hst]; exact map_lower_rendWords hw.lowerWords st
+
+example : ∀ st ∈ V12, (parse A (toStyle A [b!"widget", b!"nova"] st)).map lower = [b!"widget", b!"nova"] :=
+  fun _ hst => parse_render acrOk_default acrStable_default (by decide) (by decide +kernel) hst
+
+-- 6. the rendered multi-word name is recognised as that style (needs neither neutrality nor the trie contract) --
+
+theorem detect_render {A : Acr} {ws : List Bytes} {st : Style} (h2 : 2 ≤ ws.length) (hw : Words ws)
+    (hst : st ∈ V12) : detectStyle A (toStyle A ws st) = some st := detect_toStyle A h2 hw hst
+
+example : detectStyle A (toStyle A [b!"tiger", b!"lemon"] .sentence) = some .sentence :=
+  detect_render (by decide) (by decide) (by decide)
+
+/-- one word is not enough: a single lower-case word is no style at all, a capitalised one is Pascal -/
+theorem detect_render_needs_two_words :
+    detectStyle A (toStyle A [b!"foo"] .snake) = none ∧ detectStyle A (toStyle A [b!"foo"] .title) = some .pascal := by
+  decide +kernel
+
+-- 7. rendering is idempotent, all fourteen styles ---------------------------------------------------------------------------
+
+/-- the flat styles need only the trie contract: however the flat string is cut, concatenation restores it -/
+theorem render_idem_flat {A : Acr} {ws : List Bytes} {st : Style} (hA : AcrOk A)
+    (hw : ∀ w ∈ ws, ∀ c ∈ w, isLower c = true) (hst : st ∈ [Style.lowerFlat, .upperFlat]) :
+    toStyle A (parse A (toStyle A ws st)) st = toStyle A ws st := by
+  cases st <;> first
+    | exact absurd hst (by decide)
+    | exact render_idem_lowerFlat hA hw
+    | exact render_idem_upperFlat hA hw
+
+theorem render_idem {A : Acr} {ws : List Bytes} (st : Style) (hA : AcrOk A) (hS : AcrStable A) (hw : Words ws)
+    (hN : Neutral A ws) : toStyle A (parse A (toStyle A ws st)) st = toStyle A ws st := by
+  by_cases hst : st ∈ V12
+  · rw [parse_rendWords hA hS hw hN hst]; exact toStyle_rendWords hw st
+  · apply render_idem_flat hA (fun w h => (hw w h).2)
+    cases st <;> first
+      | exact absurd (by decide) hst
+      | decide
+
+example : ∀ st, toStyle A (parse A (toStyle A [b!"gadget", b!"delta"] st)) st = toStyle A [b!"gadget", b!"delta"] st :=
+  fun st => render_idem st acrOk_default acrStable_default (by decide) (by decide +kernel)
+
+/-- without neutrality idempotence fails for the boundary-visible styles (not for the flat ones) -/
+theorem render_idem_needs_neutral :
+    toStyle A (parse A (toStyle A [b!"uiux", b!"foo"] .screamingSnake)) .screamingSnake = b!"UI_UX_FOO" ∧
+    toStyle A [b!"uiux", b!"foo"] .screamingSnake = b!"UIUX_FOO" ∧
+    parse A (toStyle A [b!"uiux", b!"foo"] .upperFlat) = [b!"UI", b!"UXFOO"] := by decide +kernel
+
+-- 8. distinct styles render a multi-word name differently ------------------------------------------------------------
+
+theorem render_injective_on_V12 {A : Acr} {ws : List Bytes} {st st' : Style} (h2 : 2 ≤ ws.length) (hw : Words ws)
+    (hne : st ≠ st') (_hst : st ∈ V12) (hst' : st' ∈ V12) : toStyle A ws st ≠ toStyle A ws st' :=
+  fun h => hne (toStyle_inj A h2 hw hst' h)
+
+/-- also against the two flat styles -/
+theorem render_injective_V12_any {A : Acr} {ws : List Bytes} {st st' : Style} (h2 : 2 ≤ ws.length) (hw : Words ws)
+    (hne : st' ≠ st) (hst : st ∈ V12) : toStyle A ws st' ≠ toStyle A ws st :=
+  fun h => hne (toStyle_inj A h2 hw hst h)
+
+example : toStyle A [b!"foo", b!"bar"] .title ≠ toStyle A [b!"foo", b!"bar"] .sentence :=
+  render_injective_on_V12 (by decide) (by decide) (by decide) (by decide) (by decide)
+
+/-- one word is not enough: snake and kebab of one word coincide -/
+theorem render_injective_needs_two_words : toStyle A [b!"foo"] .snake = toStyle A [b!"foo"] .kebab := by decide
+
+-- 9. the variant table --------------------------------------------------------------------------------------------------------------
+
+/-- the property at full strength: every enabled boundary-visible style row maps search to replacement in that style -/
+def variant_table_full : Prop :=
+  ∀ (ws_s ws_r : List Bytes) (sst rst st : Style) (styles : Option (List Style)) (isAmb : Bool),
+    2 ≤ ws_s.length → Words ws_s → Words ws_r → Neutral A ws_s → Neutral A ws_r → UpperSafe A ws_s → UpperSafe A ws_r →
+    sst ∈ V12 → rst ∈ V12 → st ∈ styles.getD Gen.variantMapDefaultStyles → st ∈ V12 →
+    (variantMap A styles false (fun _ => none) (fun _ => none) isAmb (toStyle A ws_s sst) (toStyle A ws_r rst)).lookup
+      (toStyle A ws_s st) = some (toStyle A ws_r st)
+
+/-- search typed in style `sst` (words `ws_s`), replacement typed in style `rst` (words `ws_r`): the row for every
+    enabled boundary-visible style `st` maps the search term in `st` to the replacement in `st`, unless the final
+    exact-entry `insert(search, replace)` overrides it (`styles = none`, search not ambiguous, `st = sst ≠ rst`).
+    Hypotheses: `UpperSafe` (words longer than two letters and not acronyms) only for a term typed in an upper-case
+    style; the singular/plural rows must not produce the looked-up key (`hcol`). -/
+theorem variant_table_partial {A : Acr} (hA : AcrOk A) (hS : AcrStable A) {ws_s ws_r : List Bytes}
+    {sst rst st : Style} {styles : Option (List Style)} {plurals : Bool} {sing plur : Bytes → Option Bytes}
+    {isAmb : Bool}
+    (h2 : 2 ≤ ws_s.length) (hws : Words ws_s) (hwr : Words ws_r) (hNs : Neutral A ws_s) (hNr : Neutral A ws_r)
+    (hsst : sst ∈ V12) (hrst : rst ∈ V12)
+    (hUs : sst ∈ upperStyles → UpperSafe A ws_s) (hUr : rst ∈ upperStyles → UpperSafe A ws_r)
+    (hst : st ∈ styles.getD Gen.variantMapDefaultStyles) (hst12 : st ∈ V12)
+    (hcol : ∀ st' ∈ styles.getD Gen.variantMapDefaultStyles,
+      ∀ m ∈ (variantModels plurals sing plur (parse A (toStyle A ws_s sst)) (parse A (toStyle A ws_r rst))).tail,
+        toStyle A m.1 st' ≠ toStyle A ws_s st)
+    (hov : ¬ (styles = none ∧ isAmb = false ∧ st = sst ∧ sst ≠ rst)) :
+    (variantMap A styles plurals sing plur isAmb (toStyle A ws_s sst) (toStyle A ws_r rst)).lookup
+      (toStyle A ws_s st) = some (toStyle A ws_r st) :=
+  variant_lookup hA hS h2 hws hwr hNs hNr hsst hrst hUs hUr hst hst12 hcol hov
+
+/-- with plural variants disabled the no-collision hypothesis is vacuous -/
+theorem variant_table {A : Acr} (hA : AcrOk A) (hS : AcrStable A) {ws_s ws_r : List Bytes}
+    {sst rst st : Style} {styles : Option (List Style)} {sing plur : Bytes → Option Bytes} {isAmb : Bool}
+    (h2 : 2 ≤ ws_s.length) (hws : Words ws_s) (hwr : Words ws_r) (hNs : Neutral A ws_s) (hNr : Neutral A ws_r)
+    (hsst : sst ∈ V12) (hrst : rst ∈ V12)
+    (hUs : sst ∈ upperStyles → UpperSafe A ws_s) (hUr : rst ∈ upperStyles → UpperSafe A ws_r)
+    (hst : st ∈ styles.getD Gen.variantMapDefaultStyles) (hst12 : st ∈ V12)
+    (hov : ¬ (styles = none ∧ isAmb = false ∧ st = sst ∧ sst ≠ rst)) :
+    (variantMap A styles false sing plur isAmb (toStyle A ws_s sst) (toStyle A ws_r rst)).lookup
+      (toStyle A ws_s st) = some (toStyle A ws_r st) :=
+  variant_lookup hA hS h2 hws hwr hNs hNr hsst hrst hUs hUr hst hst12
+    (fun _ _ m hm => absurd hm (by simp [variantModels])) hov
+
+example : ∀ st ∈ Gen.variantMapDefaultStyles, st ≠ .snake →
+    (variantMap A none false (fun _ => none) (fun _ => none) false (toStyle A [b!"foo", b!"bar"] .snake)
+      (toStyle A [b!"baz", b!"qux"] .pascal)).lookup (toStyle A [b!"foo", b!"bar"] st) =
+      some (toStyle A [b!"baz", b!"qux"] st) :=
+  fun st hst hne => variant_table acrOk_default acrStable_default (by decide) (by decide) (by decide)
+    (by decide +kernel) (by decide +kernel) (by decide) (by decide) (fun h => absurd h (by decide))
+    (fun h => absurd h (by decide)) hst
+    (by revert hst; cases st <;> decide) (fun h => hne h.2.2.1)
+
+/-- the listed finding `exact_entry_override`: `barBaz` → `BarFoo` with the default styles; the Camel row is the
+    exact pair as typed, not `barBaz ↦ barFoo` -/
+theorem variant_table_exact_override_witness :
+    (variantMap A none false (fun _ => none) (fun _ => none) false b!"barBaz" b!"BarFoo").lookup b!"barBaz"
+      = some b!"BarFoo" ∧
+    toStyle A [b!"bar", b!"baz"] .camel = b!"barBaz" ∧ toStyle A [b!"bar", b!"foo"] .pascal = b!"BarFoo" ∧
+    toStyle A [b!"bar", b!"foo"] .camel = b!"barFoo" := by decide +kernel
+
+theorem variant_table_full_false : ¬ variant_table_full := by
+  intro h
+  have := h [b!"bar", b!"baz"] [b!"bar", b!"foo"] .camel .pascal .camel none false (by decide) (by decide) (by decide)
+    (by decide +kernel) (by decide +kernel) (by decide +kernel) (by decide +kernel) (by decide) (by decide)
+    (by decide) (by decide)
+  revert this
+  decide +kernel
+
+/-- the collision case of the singular/plural rows, in general: the first row with the key wins -/
+theorem variant_table_collision {k : Bytes} (pre : List (Bytes × Bytes)) (e : Bytes × Bytes)
+    (post : List (Bytes × Bytes)) (hpre : ∀ x ∈ pre, x.1 ≠ k) (he : e.1 = k) :
+    (buildMap (pre ++ e :: post)).lookup k = some e.2 := variant_lookup_collision pre e post hpre he
+
+/-- … and on a concrete (artificial) singularizer that turns the last token into `_bar`: with styles
+    `[camel, snake]` the Camel rendering `foo` ++ `_bar` of the singular row takes the Snake key `foo_bar` -/
+theorem variant_table_collision_witness :
+    (variantMap A (some [.camel, .snake]) true (fun _ => some b!"_bar") (fun _ => none) false b!"foo_bar"
+      b!"baz_qux").lookup b!"foo_bar" = some b!"baz_bar" := by decide +kernel
+
+/-- `UpperSafe` is needed for a term typed in an upper-case style: two-letter words stay upper-case in the hump
+    styles, acronym words are kept verbatim -/
+theorem upper_safe_needed :
+    toStyle A (parse A (toStyle A [b!"ab", b!"cd"] .screamingSnake)) .pascal = b!"ABCD" ∧
+    toStyle A [b!"ab", b!"cd"] .pascal = b!"AbCd" ∧
+    toStyle A (parse A (toStyle A [b!"foo", b!"api"] .screamingSnake)) .pascal = b!"FooAPI" ∧
+    toStyle A [b!"foo", b!"api"] .pascal = b!"FooApi" := by decide +kernel
 
 end C18
